@@ -11,11 +11,38 @@ Lemma step_pump_take s c hi s' :
   exists x f', fpop (chan_of tp hi) = Some (x, f') /\
     s' = match x with
          | ISent => sc (st s T (set_chan tp hi f')) c (set_pump cl PExit None)
-         | IMsg o => set_where (sc (st s T (set_chan tp hi f')) c (set_pump cl PRun (Some x))) o (PHold c)
+         | IMsg o => if o_id (go s o) =? 0
+                     then set_where (sc (st s T (set_chan tp hi f')) c (set_pump cl PExit None)) o P0
+                     else set_where (sc (st s T (set_chan tp hi f')) c (set_pump cl PRun (Some x))) o (PHold c)
          end.
 Proof.
-  intros H. step_inv H; simpl; split; auto; eexists _, _; split; try eassumption; reflexivity.
+  intros H. step_inv H; simpl; split; auto; eexists _, _; (split; [eassumption|]);
+    simpl; repeat match goal with E : (o_id _ =? 0) = _ |- _ => rewrite E; clear E end; reflexivity.
 Qed.
+
+Lemma step_xtake s k hi s' :
+  step s (EXTake k hi) = Some s' ->
+  let xp := gx s k in let T := x_topic xp in let tp := gt s T in
+  x_hold xp = None /\
+  exists x f', fpop (chan_of tp hi) = Some (x, f') /\
+    s' = match x with
+         | ISent => sx (st s T (set_chan tp hi f')) k (set_xp xp PExit None)
+         | IMsg o => if o_id (go s o) =? 0
+                     then set_where (sx (st s T (set_chan tp hi f')) k (set_xp xp PExit None)) o P0
+                     else set_where (sx (st s T (set_chan tp hi f')) k (set_xp xp PRun (Some x))) o (PXHold k)
+         end.
+Proof.
+  intros H. step_inv H; simpl; split; auto; eexists _, _; (split; [eassumption|]);
+    simpl; repeat match goal with E : (o_id _ =? 0) = _ |- _ => rewrite E; clear E end; reflexivity.
+Qed.
+
+Lemma step_xput s k s' :
+  step s (EXPut k) = Some s' ->
+  let xp := gx s k in let c := x_client xp in let cl := gc s c in
+  exists x, x_hold xp = Some x /\
+    s' = item_where (sx (sc s c (mkC (fpush x (c_recv cl)) (c_hold cl) (c_pump cl) (c_topic cl) (c_closing cl) (c_closed cl) (c_held cl)))
+                        k (set_xp xp (x_st xp) None)) x (PRecv c).
+Proof. intros H. step_inv H; simpl; eexists; split; eauto. Qed.
 
 Lemma step_pump_put s c s' :
   step s (EPumpPut c) = Some s' ->
